@@ -46,6 +46,8 @@ def check(run):
     run.floor('C14-R2', 9, 'obligations')
     run.floor('C14-R3', 3)
     run.floor('C14-R4', 3 * 8, 'obligations')
+    from ..cachekey import check_caches
+    check_caches(run, [m_ for m_ in prog.modules.values() if m_.relpath in set(FILES) and not m_.name.endswith('#pxd')], 'C14-K', prog=prog)
 
 
 def _once_and_nodes(run, ci, nd):
